@@ -4,8 +4,13 @@
 
    `bounds_ok` is regenerated from the Rust source of AtomicBuffer::bounds_check on every run
    (Generated/GenBounds.v); the theorems below are re-checked against whatever it says today. *)
-Require Import V.Base.MachineInt V.Generated.GenBounds V.Model.Buffer V.Oracle.C16Oracle
-               V.Proofs.BufferGuard V.Proofs.BufferProofs V.Proofs.C16OracleProofs.
+Require Import V.Base.MachineInt.
+Require Import V.Generated.GenBounds.
+Require Import V.Model.Buffer.
+Require Import V.Oracle.C16Oracle.
+Require Import V.Proofs.BufferGuard.
+Require Import V.Proofs.BufferProofs.
+Require Import V.Proofs.C16OracleProofs.
 Open Scope Z_scope.
 
 (* ---- the guard: for all i32 offsets and lengths, in both build modes, only ranges inside [0, cap) are accepted:
